@@ -418,12 +418,17 @@ def check_window(ctx, case):
         raise Violation(f"C02/window/{verb}/completion_reply_changed_by_interposed_{first_inter}", detail)
     if verb in ("RETR", "LIST", "MLSD"):
         def listed(d):
-            # an interposed "MKD /pub/x" legitimately adds the entry "x" to a listing of /pub that is produced after it
-            # (the property is about which location is addressed, not about snapshot isolation): that entry is not compared
+            # an interposed "MKD /pub/x" legitimately changes what a later listing shows (the new entry "x"; on a real
+            # file system also the link count and mtime of "pub").  The property is about *which location* is addressed,
+            # not about snapshot isolation: listings are compared by their entry names, the created entry left out.
             d = norm(d)
-            if d is not None and verb != "RETR" and "MKD /pub/x" in inter:
-                d = b"".join(ln for ln in d.splitlines(True) if not ln.endswith(b" x\r\n"))
-            return d
+            if d is None or verb == "RETR":
+                return d
+            names = sorted(ln.rsplit(b" ", 1)[-1] for ln in d.splitlines() if ln.strip())
+            if "MKD /pub/x" in inter:
+                names = [n for n in names if n != b"x"]
+            return names
+
         if listed(with_inter.get("data")) != listed(base.get("data")):
             raise Violation(f"C02/window/{verb}/other_location_served_after_interposed_{first_inter}",
                             dict(detail, served=with_inter.get("data"), expected=base.get("data")))
